@@ -80,11 +80,31 @@ def replay(args):
             p.i = m(p=p.s, q=p.w)
         raised, dg, exc = ET.do_call(h, "to_proto", [p])
         outs.append({"tid": tid, "key": f"{shape}|newparent|{name}", "val": exc if raised else dg})
-        try:
-            m.add(h.Signal(name="late"))
-            extra.append({"tid": tid, "key": f"{shape}|add_after_elab|{name}", "val": "accepted"})
-        except Exception:
-            extra.append({"tid": tid, "key": f"{shape}|add_after_elab|{name}", "val": "refused"})
+        # ... also reaching the elaborated module's bundle-valued port through a port reference, and leaving it open
+        if "bp" in (m._pre_flattening_io or {}):
+            q = h.Module(name="NewParentRef_" + name)
+            q.s = h.Signal()
+            q.b = bld.bundle("B1")()
+            q.i1 = m(p=q.s, bp=q.b)
+            q.i2 = m(p=q.s, bp=q.i1.bp)
+            q.i3 = m(p=q.i1.p, bp=h.NoConn())
+            raised, dg, exc = ET.do_call(h, "to_proto", [q])
+            outs.append({"tid": tid, "key": f"{shape}|newparent|ref_{name}", "val": exc if raised else dg})
+        # additions to an elaborated module must be refused - and a refused one must leave the module as it was
+        attempts = [("late", lambda: m.add(h.Signal(name="late"))), ("p", lambda: setattr(m, "p", h.Input()))]
+        inst_names = list(m.instances)
+        if inst_names:
+            attempts.append((inst_names[0], lambda: setattr(m, inst_names[0], h.Instance(of=mods["E"]))))
+        for an, fn in attempts:
+            try:
+                fn()
+                extra.append({"tid": tid, "key": f"{shape}|add_after_elab|{name}.{an}", "val": "accepted"})
+            except Exception:
+                extra.append({"tid": tid, "key": f"{shape}|add_after_elab|{name}.{an}", "val": "refused"})
+    # ... every module once more, after the refused additions: same outputs as before
+    for name in sorted(mods):
+        raised, dg, exc = ET.do_call(h, "to_proto", [mods[name]])
+        extra.append({"tid": tid, "key": f"{shape}|to_proto|{name}", "val": exc if raised else dg})
     return events, outs + extra
 
 
